@@ -294,6 +294,11 @@ fn body(ctx: &Ctx, acc: &mut Acc, started: &AtomicU64, t0: Instant) {
                     }
                 }
             }
+            // a valid program whose identifiers are extreme (still valid: renamed consistently)
+            19 if i % 2 == 0 => {
+                let (t, d) = mutate::rename_to_extreme(base, &mut rng);
+                (t, format!("extreme identifiers: {d}"))
+            }
             _ => (base.clone(), "unmutated generated program".to_string()),
         };
         acc.evaluations += 1;
